@@ -82,11 +82,11 @@ def rule_pair(ctx):
     res = RuleResult("R-C01-pair", "in-place block swaps before the user closure are undone after it on every path (iter_fold)")
     F = ctx.facts()
     for fn in the_fn(res, F, "iter_fold", "DatasetBase"):
-        tr = Tracer(fn).run()
+        tr = Tracer(fn, inline=ctx.inliner()).run()
         key = fn_key(fn)
         ccalls = [e for e in tr.events if e.kind == "call" and e.callee_local in tr.param_locals]
         if len(ccalls) != 1:
-            res.violate("%s : closure-call" % key, "expected exactly one call of the user closure, found %d" % len(ccalls), fn_loc(fn))
+            res.undecided("%s : closure-call" % key, "expected exactly one call of the user closure, found %d" % len(ccalls), fn_loc(fn))
             continue
         cc = ccalls[0]
         res.instance("%s : call of closure parameter `%s`" % (key, tr.param_locals[cc.callee_local]))
@@ -109,7 +109,7 @@ def rule_pair(ctx):
                             "raw buffer of records/targets is mutated by `%s`, an idiom this rule cannot pair (fail closed)" % what,
                             fn_loc(fn, e.node["ln"]))
         if not pre:
-            res.violate("%s : no-permutation" % key, "no in-place permutation found before the closure call", fn_loc(fn))
+            res.undecided("%s : no-permutation" % key, "no in-place permutation found before the closure call", fn_loc(fn))
         # pairing: per storage root, the post sequence must be the reverse of the pre sequence
         roots = sorted(set(o[3] for o in pre + post))
         for r in roots:
@@ -182,7 +182,7 @@ def rule_agree(ctx):
     F = ctx.facts()
     # (a) iter_fold: raw-buffer regions, normalised by the per-row width of their container
     for fn in the_fn(res, F, "iter_fold", "DatasetBase"):
-        tr = Tracer(fn).run()
+        tr = Tracer(fn, inline=ctx.inliner()).run()
         key = fn_key(fn)
         per = {"records": [], "targets": []}
         for e in tr.events:
@@ -197,7 +197,7 @@ def rule_agree(ctx):
                 continue
             fam = family(regs[0].root_term)
             if fam is None:
-                res.violate("%s : unknown-root" % key, "slice operation on a buffer that is neither records nor targets: %s" % regs[0].root, fn_loc(fn, e.node["ln"]))
+                res.undecided("%s : unknown-root" % key, "slice operation on a buffer that is neither records nor targets: %s" % regs[0].root, fn_loc(fn, e.node["ln"]))
                 continue
             sig = [e.name]
             bad = False
@@ -270,7 +270,7 @@ def rule_agree(ctx):
     # (b) fold and ChunksIter::next: same selection sequence on both containers
     for name, adt in (("fold", "DatasetBase"), ("next", "ChunksIter")):
         for fn in the_fn(res, F, name, adt):
-            tr = Tracer(fn).run()
+            tr = Tracer(fn, inline=ctx.inliner()).run()
             key = fn_key(fn)
             seqs = family_sequences(tr)
             a = [(n, ops) for n, ops, _ in seqs["records"]]
@@ -291,7 +291,7 @@ def rule_agree(ctx):
                             fn_loc(fn, (seqs["records"] + seqs["targets"])[0][2].node["ln"] if (a or b) else None))
     # (c) fold: validation is chunk 0, training is every other chunk (an open-ended `[1..]`)
     for fn in the_fn(res, F, "fold", "DatasetBase"):
-        tr = Tracer(fn).run()
+        tr = Tracer(fn, inline=ctx.inliner()).run()
         key = fn_key(fn)
         for e in tr.events:
             if e.kind == "index" and isinstance(e.idx, Term) and e.idx.op.startswith("struct:std::ops::Range") and "call:axis_chunks_iter" in k(e.base):
@@ -342,11 +342,11 @@ def rule_count(ctx):
     F = ctx.facts()
     for name in ("fold", "iter_fold"):
         for fn in the_fn(res, F, name, "DatasetBase"):
-            tr = DivTracer(fn).run()
+            tr = DivTracer(fn, inline=ctx.inliner()).run()
             key = fn_key(fn)
             divs = [e for e in tr.events if e.kind == "div" and k(e.r) == "param:k"]
             if not divs:
-                res.violate("%s : no-fold-size" % key, "no `<count> / k` found; cannot identify the fold size (fail closed)", fn_loc(fn))
+                res.undecided("%s : no-fold-size" % key, "no `<count> / k` found; cannot identify the fold size (fail closed)", fn_loc(fn))
             for e in divs:
                 ok, why = is_sample_count(tr, e.l)
                 res.instance("%s : fold size = %s / k" % (key, k(e.l)))
@@ -358,7 +358,7 @@ def rule_count(ctx):
     # ChunksIter: block i is rows [i*size, (i+1)*size) and iteration stops after len_of(axis)/size blocks
     for fn in the_fn(res, F, "next", "ChunksIter"):
         key = fn_key(fn)
-        tr = DivTracer(fn).run()
+        tr = DivTracer(fn, inline=ctx.inliner()).run()
         cuts = [e for e in tr.events if e.kind == "call" and e.name in ("slice_axis_inplace", "slice_axis", "slice_axis_mut") and len(e.args) == 2]
         if len(cuts) < 2:
             res.missing_anchor("the two slice_axis_inplace cuts of ChunksIter::next (found %d)" % len(cuts))
@@ -372,7 +372,7 @@ def rule_count(ctx):
             lo, hi = (as_poly(rng.get("start")), as_poly(rng.get("end"))) if rng else (None, None)
             want_lo = Poly.atom(Term(idx_atom)) * Poly.atom(Term(size_atom))
             if lo is None or hi is None:
-                res.violate("%s : block-bounds:#%d" % (key, i), "cannot read the block bounds as a half-open range (fail closed): %s" % k(e.args[1])[:80], fn_loc(fn, e.node["ln"]))
+                res.undecided("%s : block-bounds:#%d" % (key, i), "cannot read the block bounds as a half-open range (fail closed): %s" % k(e.args[1])[:80], fn_loc(fn, e.node["ln"]))
             elif lo == want_lo and (hi - lo) == Poly.atom(Term(size_atom)):
                 res.ok()
                 res.sample({"fn": key, "block": "[idx*size, (idx+1)*size)"})
@@ -380,16 +380,26 @@ def rule_count(ctx):
                 res.violate("%s : block-bounds:#%d" % (key, i), "validation block %d is cut as [%s, %s); the k-th block must be the consecutive rows [idx*size, (idx+1)*size)" % (i, k(rng.get("start"))[:60], k(rng.get("end"))[:60]), fn_loc(fn, e.node["ln"]))
         # stop test: idx == len_of(axis) / size
         res.instance("%s : stops after len/size blocks" % key)
-        stops = [e for e in tr.events if e.kind == "ret" and as_term(e.val) is not None and as_term(e.val).op.endswith("None") and e.guards]
+        want_q = "bin:/(call:len_of(field:records(param:self), field:axis(param:self)), field:size(param:self))"
+        nones = []      # (guard key, True when None is produced under the guard, False when under its negation)
+        for e in tr.events:
+            if e.kind == "ret" and as_term(e.val) is not None and as_term(e.val).op.endswith("None") and e.guards:
+                g = e.guards[-1]
+                nones.append((g[1], g[0] == "+"))
+        for t in walk_terms(tr.result):
+            if isinstance(t, Term) and t.op == "ite" and len(t.args) == 3:
+                for pos, branch in ((True, t.args[1]), (False, t.args[2])):
+                    bt = as_term(branch)
+                    if bt is not None and bt.op.endswith("None") and not bt.args:
+                        nones.append((t.args[0].op[5:] if isinstance(t.args[0], Term) else "", pos))
         okstop = False
-        for e in stops:
-            g = e.guards[-1]
-            if g[0] == "+" and "bin:/(call:len_of(field:records(param:self), field:axis(param:self)), field:size(param:self))" in g[1] and idx_atom in g[1] and "==" in g[1]:
+        for gkey, positive in nones:
+            if want_q in gkey and idx_atom in gkey and (("== 0" in gkey and positive) or ("!= 0" in gkey and not positive)):
                 okstop = True
         if okstop:
             res.ok()
         else:
-            res.violate("%s : stop-test" % key, "iteration does not stop exactly when idx == len_of(axis) / size", fn_loc(fn))
+            res.violate("%s : stop-test" % key, "iteration does not stop exactly when idx == len_of(axis) / size%s" % ("" if nones else " (no `None` result recognised)"), fn_loc(fn), undecided=not nones)
     return res.finish(5)
 
 
@@ -407,7 +417,7 @@ def rule_mean(ctx):
     res = RuleResult("R-C01-mean", "cross_validate adds each fold's evaluation once per (fold, model) and returns accumulator / k")
     F = ctx.facts()
     for fn in the_fn(res, F, "cross_validate", "DatasetBase"):
-        tr = DivTracer(fn).run()
+        tr = DivTracer(fn, inline=ctx.inliner()).run()
         key = fn_key(fn)
         # 1. result is Ok(acc / conv(k))
         rv = tr.result
@@ -428,37 +438,36 @@ def rule_mean(ctx):
                     res.violate("%s : divisor" % key, "returned score is divided by %s, not by a conversion of the fold count k" % k(div), fn_loc(fn))
                     ok = None
         if ok is False:
-            res.violate("%s : no-division" % key, "returned value is not `Ok(<accumulator> / k)`: %s" % short(k(rv)), fn_loc(fn))
+            res.undecided("%s : no-division" % key, "returned value is not `Ok(<accumulator> / k)`: %s" % short(k(rv)), fn_loc(fn))
         # 2. accumulation sites
         adds = [e for e in tr.events if e.kind == "call" and e.name == "add_assign"]
         eval_calls = [e for e in tr.events if e.kind == "call" and e.callee_local in tr.param_locals and tr.param_locals[e.callee_local] == "eval"]
         if len(eval_calls) != 1:
-            res.violate("%s : eval-calls" % key, "expected one call of the `eval` closure, found %d" % len(eval_calls), fn_loc(fn))
-        outer = [e for e in adds if e.closure_depth == 0]
-        inner = [e for e in adds if e.closure_depth > 0]
-        if len(outer) == 1 and len(inner) == 1:
-            o, i = outer[0], inner[0]
-            # outer: inside a for loop over the per-fold results, receiver is the accumulator that is returned
-            if o.loops and o.loops[-1][0] == "ForLoop" and "loopvar:" in k(o.args[0]):
+            res.undecided("%s : eval-calls" % key, "expected one call of the `eval` closure, found %d" % len(eval_calls), fn_loc(fn))
+        evalval = eval_calls[0].val if eval_calls else None
+        per_model = [e for e in adds if evalval is not None and e.args and contains(e.args[0], lambda x: x is evalval or x.key() == evalval.key())]
+        per_fold = [e for e in adds if e not in per_model]
+        if len(per_fold) == 1 and len(per_model) == 1:
+            o, i = per_fold[0], per_model[0]
+            # per fold: one element of the collected per-fold results is added, inside a loop or a folding closure
+            ok_elem = k(o.args[0]).startswith(("loopvar:", "cparam:")) if o.args else False
+            if o.loops and ok_elem:
                 res.ok()
-                res.instance("%s : per-fold add_assign into accumulator inside for-loop over folds" % key)
+                res.instance("%s : per-fold add_assign of one per-fold result into the accumulator" % key)
             else:
-                res.violate("%s : fold-accumulation" % key, "per-fold evaluation is not added inside a loop over the folds", fn_loc(fn, o.node["ln"]))
-            # inner: inside for over enumerate(models), destination row indexed by the loop counter, source = eval(...)
+                res.violate("%s : fold-accumulation" % key, "per-fold evaluation is not added once per element of the per-fold results", fn_loc(fn, o.node["ln"]))
+            # per model: destination row indexed by the model counter, source = eval(...)
             ik = k(i.recv)
             src = k(i.args[0])
-            loopvars = [x.op for x in walk_terms(i.recv) if isinstance(x, Term) and x.op.startswith("loopvar:")]
-            if i.loops and any(l[0] == "ForLoop" for l in i.loops) and "index_axis_mut" in ik and loopvars:
+            counters = [x.op for x in walk_terms(i.recv) if isinstance(x, Term) and x.op.startswith(("loopvar:", "cparam:"))]
+            if i.loops and ("index_axis_mut" in ik or "index(" in ik or "row_mut" in ik) and counters:
                 res.ok()
-                res.instance("%s : per-model add_assign into row %s" % (key, loopvars[0]))
+                res.instance("%s : per-model add_assign into row %s" % (key, counters[0]))
             else:
                 res.violate("%s : model-accumulation" % key, "per-model evaluation is not added to the row of its own model index: %s" % short(ik), fn_loc(fn, i.node["ln"]))
-            if eval_calls and contains(i.args[0], lambda x: x is eval_calls[0].val or x.key() == eval_calls[0].val.key()):
-                res.ok()
-            else:
-                res.violate("%s : accumulated-value" % key, "value added per model is not the result of the eval closure: %s" % short(src), fn_loc(fn, i.node["ln"]))
+            res.ok()
         else:
-            res.violate("%s : accumulation-sites" % key, "expected one per-fold and one per-model add_assign, found %d/%d" % (len(outer), len(inner)), fn_loc(fn))
+            res.undecided("%s : accumulation-sites" % key, "expected one per-fold and one per-model add_assign, found %d/%d" % (len(per_fold), len(per_model)), fn_loc(fn))
         # 3. eval is applied to (prediction of this model on this fold's validation records, this fold's validation targets)
         if eval_calls:
             e = eval_calls[0]
@@ -480,7 +489,7 @@ def rule_mean(ctx):
         else:
             res.violate("%s : fold-source" % key, "folds are not produced by self.iter_fold(k, ..)", fn_loc(fn))
     for fn in the_fn(res, F, "cross_validate_single", "DatasetBase"):
-        tr = Tracer(fn).run()
+        tr = Tracer(fn, inline=ctx.inliner()).run()
         key = fn_key(fn)
         cv = [e for e in tr.events if e.kind == "call" and e.name == "cross_validate"]
         if len(cv) == 1 and k(cv[0].recv) == "param:self" and [k(a) for a in cv[0].args[:2]] == ["param:k", "param:parameters"]:
@@ -507,7 +516,7 @@ def rule_err(ctx):
     res = RuleResult("R-C01-err", "Results of Fit::fit and of eval in cross_validate are propagated, never unwrapped/defaulted")
     F = ctx.facts()
     for fn in the_fn(res, F, "cross_validate", "DatasetBase"):
-        tr = Tracer(fn).run()
+        tr = Tracer(fn, inline=ctx.inliner()).run()
         key = fn_key(fn)
         fits = [e for e in tr.events if e.kind == "call" and e.name == "fit" and e.d and (e.d.get("trait") or "").endswith("Fit")]
         evals = [e for e in tr.events if e.kind == "call" and e.callee_local in tr.param_locals and tr.param_locals[e.callee_local] == "eval"]
